@@ -132,7 +132,7 @@ class Contract:
     def __init__(self, module, file, qual, params, ret=None, yields=None, requires=(), ensures=(), raises=None,
                  raises_ensures=None, locals=None, loops=None, calls=None, globals=None, modifies=(), defaults=None,
                  ignore_kwargs=False, star=None, exc_parents=None, comp_types=None, canaries=(), properties=(),
-                 trusted=False, note="", receiver_classes=None, use=(), inputs=None, native_fn=None, shards=1, native_frame_skip=(), callable_recv=False, no_library=False, cursors=None, index_map_type=None):
+                 trusted=False, note="", receiver_classes=None, use=(), inputs=None, native_fn=None, shards=1, native_frame_skip=(), callable_recv=False, no_library=False, cursors=None, index_map_type=None, fresh_result=False):
         self.no_library = no_library
         self.index_map_type = index_map_type
         self.cursors = dict(cursors or {})
@@ -142,6 +142,7 @@ class Contract:
         self.use = list(use)
         self.native_inputs = inputs
         self.native_fn = native_fn
+        self.fresh_result = fresh_result    # the returned object shares nothing with the arguments or any state (assumed for trusted contracts)
         self.module = module
         self.file = file
         self.qual = qual
